@@ -15,7 +15,8 @@ func init() {
 		title: "input is a JSON value stream: incremental, faults reported",
 		run:   runC03,
 		decided: "the decoder protocol: no call to (*json.Decoder).More at top level (it answers false for a stray ']' / '}' and for a failed read alike, so a `for d.More()` loop cannot tell end of input from a fault); the decode loop is left only by a return or on the edge where Decode's error is io.EOF; any other Decode error returns a JsonError carrying the decoder's message and the name of the file being read, before any rule is evaluated on the partial value; each value is processed completely (BEGINFILE, pattern, ENDFILE rules) inside the loop before the next Decode, and the list of roots is created per value; the decoder reads from the caller's reader itself and the CLI passes the opened file / os.Stdin itself; output is written unbuffered as statements execute." +
-			" No successful return of EvalProgram precedes the file loop except on `exit`.",
+			" No successful return of EvalProgram precedes the file loop except on `exit`." +
+			" The decoder is used through Decode alone; every decoded value goes through the root selection.",
 		notDecided: "chunking independence and `at most one following byte`: properties of encoding/json's streaming Decoder (trusted).",
 	})
 }
